@@ -33,6 +33,12 @@ from pymeeus.Angle import Angle
 """
 
 
+RTOL = 1e-12
+"""Relative tolerance used to detect degenerate input data: A determinant
+smaller than this fraction of the terms it is built from is just round-off."""
+
+
+
 class CurveFitting(object):
     """
     Class CurveFitting deals with finding the function (linear, cuadratic, etc)
@@ -329,7 +335,9 @@ class CurveFitting(object):
         sy2 = self._W
         dx = n * sx2 - sx * sx
         dy = n * sy2 - sy * sy
-        if abs(dx) < TOL or abs(dy) < TOL:
+        # The tolerance is also relative to the size of the terms subtracted
+        if (abs(dx) < TOL or abs(dy) < TOL or abs(dx) < RTOL * n * sx2
+                or abs(dy) < RTOL * n * sy2):
             raise ZeroDivisionError("Input data leads to a division by zero")
         return (n * sxy - sx * sy) / (sqrt(dx) * sqrt(dy))
 
@@ -361,7 +369,7 @@ class CurveFitting(object):
         sx2 = self._Q
         d = n * sx2 - sx * sx
 
-        if abs(d) < TOL:
+        if abs(d) < TOL or abs(d) < RTOL * n * sx2:
             raise ZeroDivisionError("Input data leads to a division by zero")
 
         a = (n * sxy - sx * sy) / d
@@ -397,8 +405,10 @@ class CurveFitting(object):
         v = self._V
         q2 = q * q
         d = n * q * s + 2.0 * p * q * r - q2 * q - p * p * s - n * r * r
+        size = (abs(n * q * s) + 2.0 * abs(p * q * r) + abs(q2 * q)
+                + abs(p * p * s) + abs(n * r * r))
 
-        if abs(d) < TOL:
+        if abs(d) < TOL or abs(d) < RTOL * size:
             raise ZeroDivisionError("Input data leads to a division by zero")
 
         a = (n * q * v + p * r * t + p * q * u
